@@ -109,7 +109,17 @@ func init() {
 		}
 		return c.tb.Bool(n)
 	}
+	intrinsics["reflect.TypeOf"] = func(c *Ctx, fn *ssa.Function, a []Value) Value {
+		iv := a[0].(IfaceV)
+		if iv.t == nil {
+			return IfaceV{}
+		}
+		return c.reflectType(iv.t)
+	}
 	intrinsics["reflect.TypeFor"] = func(c *Ctx, fn *ssa.Function, a []Value) Value {
+		return c.reflectType(fn.TypeArgs()[0])
+	}
+	intrinsics["reflect.TypeFor_unused"] = func(c *Ctx, fn *ssa.Function, a []Value) Value {
 		t := fn.TypeArgs()[0]
 		obj := &NativeObj{name: "reflect.Type(" + t.String() + ")", methods: map[string]func(c *Ctx, args []Value) Value{
 			"Kind": func(c *Ctx, args []Value) Value { return c.tb.Const(kindOf(t), 64) },
@@ -117,4 +127,23 @@ func init() {
 		}}
 		return IfaceV{t: c.shared.errType, v: obj}
 	}
+}
+
+func (c *Ctx) reflectType(t types.Type) Value {
+	name, pkg := "", ""
+	if n, ok := unalias(t).(*types.Named); ok {
+		name = n.Obj().Name()
+		if n.Obj().Pkg() != nil {
+			pkg = n.Obj().Pkg().Path()
+		}
+	} else if b, ok := unalias(t).(*types.Basic); ok {
+		name = b.Name()
+	}
+	obj := &NativeObj{name: "reflect.Type(" + t.String() + ")", methods: map[string]func(c *Ctx, args []Value) Value{
+		"Kind":    func(c *Ctx, args []Value) Value { return c.tb.Const(kindOf(t), 64) },
+		"String":  func(c *Ctx, args []Value) Value { return c.strConst(types.TypeString(t, func(p *types.Package) string { return p.Name() })) },
+		"Name":    func(c *Ctx, args []Value) Value { return c.strConst(name) },
+		"PkgPath": func(c *Ctx, args []Value) Value { return c.strConst(pkg) },
+	}}
+	return IfaceV{t: c.shared.errType, v: obj}
 }
